@@ -83,6 +83,11 @@ def build_frame(case):
     elif byk == "array":
         kwargs = {"by": _kcol(keys[0], kk[0])}
         keys = keys[:1]
+    elif byk == "series":
+        # a free-standing key Series on the frame's own index whose NAME is that of a value column (a key derived from a column
+        # keeps the column's name): the column is a value column all the same -- the key is not that column
+        kwargs = {"by": ("series", _kcol(keys[0], kk[0]))}
+        keys = keys[:1]
     elif byk == "level":
         index = pd.Index(_kcol(keys[0], kk[0]), name="lv")
         kwargs = {"level": 0}
@@ -97,6 +102,8 @@ def build_frame(case):
     data.update(vals)
     df = pd.DataFrame(data, index=index)
     vnames = list(vals)
+    if isinstance(kwargs.get("by"), tuple) and kwargs["by"][0] == "series":
+        kwargs = {"by": pd.Series(kwargs["by"][1], index=index, name=vnames[0])}
     obj = df
     if case.get("series"):
         obj = df[vnames[0]]
